@@ -257,8 +257,11 @@ impl Iterator for NodeSplitIterator<'_> {
         let (char_end, byte_end) = if idx + 1 == self.splits.len() {
             (self.char_end, self.byte_end)
         } else {
+            // split units may not match the text, keep them inside of the parent
+            // and on character boundaries
             let byte_end = byte_start as usize + word_info.head_word_length();
-            let char_end = self.text.ch_idx(byte_end);
+            let char_end = self.text.ch_idx(byte_end.min(self.byte_end as usize));
+            let byte_end = self.text.to_curr_byte_idx(char_end);
             (char_end as u16, byte_end as u16)
         };
 
